@@ -113,6 +113,21 @@ fn check_allowed_values(value: Value, av_evaluator: Option<&Evaluator>) -> Value
   }
 }
 
+/// Checks the items of a collection against the allowed values: the values defined by an item definition
+/// that is a collection are collections of allowed values, so the test applies to every item, not to the list.
+fn check_allowed_items(values: Values, av_evaluator: Option<&Evaluator>) -> Value {
+  if let Some(evaluator) = av_evaluator {
+    let scope = Scope::default();
+    for value in values.as_vec() {
+      scope.set_entry(&"?".into(), value.clone());
+      if !evaluator(&scope).is_true() {
+        return value_null!("value not allowed");
+      }
+    }
+  }
+  Value::List(values)
+}
+
 ///
 fn build_simple_type_evaluator(feel_type: FeelType, av_evaluator: Option<Evaluator>) -> Result<ItemDefinitionEvaluatorFn> {
   ///
@@ -268,7 +283,7 @@ fn build_collection_of_simple_type_evaluator(feel_type: FeelType, av_evaluator: 
             return value_null!("item definition evaluator (CollectionOfSimpleType): expected string");
           }
         }
-        check_allowed_values(Value::List(evaluated_values), av_evaluator.as_ref())
+        check_allowed_items(evaluated_values, av_evaluator.as_ref())
       } else {
         value_null!("item definition evaluator (CollectionOfSimpleType): expected list")
       }
@@ -286,7 +301,7 @@ fn build_collection_of_simple_type_evaluator(feel_type: FeelType, av_evaluator: 
             return value_null!("item definition evaluator (CollectionOfSimpleType): expected number");
           }
         }
-        check_allowed_values(Value::List(evaluated_values), av_evaluator.as_ref())
+        check_allowed_items(evaluated_values, av_evaluator.as_ref())
       } else {
         value_null!("item definition evaluator (CollectionOfSimpleType): expected list")
       }
@@ -304,7 +319,7 @@ fn build_collection_of_simple_type_evaluator(feel_type: FeelType, av_evaluator: 
             return value_null!("item definition evaluator (CollectionOfSimpleType): expected boolean");
           }
         }
-        check_allowed_values(Value::List(evaluated_values), av_evaluator.as_ref())
+        check_allowed_items(evaluated_values, av_evaluator.as_ref())
       } else {
         value_null!("item definition evaluator (CollectionOfSimpleType): expected list")
       }
@@ -322,7 +337,7 @@ fn build_collection_of_simple_type_evaluator(feel_type: FeelType, av_evaluator: 
             return value_null!("item definition evaluator (CollectionOfSimpleType): expected date");
           }
         }
-        check_allowed_values(Value::List(evaluated_values), av_evaluator.as_ref())
+        check_allowed_items(evaluated_values, av_evaluator.as_ref())
       } else {
         value_null!("item definition evaluator (CollectionOfSimpleType): expected list")
       }
@@ -340,7 +355,7 @@ fn build_collection_of_simple_type_evaluator(feel_type: FeelType, av_evaluator: 
             return value_null!("item definition evaluator (CollectionOfSimpleType): expected time");
           }
         }
-        check_allowed_values(Value::List(evaluated_values), av_evaluator.as_ref())
+        check_allowed_items(evaluated_values, av_evaluator.as_ref())
       } else {
         value_null!("item definition evaluator (CollectionOfSimpleType): expected list")
       }
@@ -358,7 +373,7 @@ fn build_collection_of_simple_type_evaluator(feel_type: FeelType, av_evaluator: 
             return value_null!("item definition evaluator (CollectionOfSimpleType): expected date and time");
           }
         }
-        check_allowed_values(Value::List(evaluated_values), av_evaluator.as_ref())
+        check_allowed_items(evaluated_values, av_evaluator.as_ref())
       } else {
         value_null!("item definition evaluator (CollectionOfSimpleType): expected list")
       }
@@ -376,7 +391,7 @@ fn build_collection_of_simple_type_evaluator(feel_type: FeelType, av_evaluator: 
             return value_null!("item definition evaluator (CollectionOfSimpleType): expected days and time duration");
           }
         }
-        check_allowed_values(Value::List(evaluated_values), av_evaluator.as_ref())
+        check_allowed_items(evaluated_values, av_evaluator.as_ref())
       } else {
         value_null!("item definition evaluator (CollectionOfSimpleType): expected list")
       }
@@ -394,7 +409,7 @@ fn build_collection_of_simple_type_evaluator(feel_type: FeelType, av_evaluator: 
             return value_null!("item definition evaluator (CollectionOfSimpleType): expected months and years duration");
           }
         }
-        check_allowed_values(Value::List(evaluated_values), av_evaluator.as_ref())
+        check_allowed_items(evaluated_values, av_evaluator.as_ref())
       } else {
         value_null!("item definition evaluator (CollectionOfSimpleType): expected list")
       }
@@ -423,7 +438,7 @@ fn build_collection_of_referenced_type_evaluator(type_ref: String, av_evaluator:
         for item_value in values.as_vec() {
           evaluated_values.add(evaluator(item_value, evaluators));
         }
-        check_allowed_values(Value::List(evaluated_values), av_evaluator.as_ref())
+        check_allowed_items(evaluated_values, av_evaluator.as_ref())
       } else {
         value_null!("no evaluator defined for type reference '{}'", type_ref)
       }
@@ -461,7 +476,7 @@ fn build_collection_of_component_type_evaluator(item_definition: &ItemDefinition
           return value_null!("expected context, actual type is '{}' in value '{}'", item_value.type_of(), item_value);
         }
       }
-      check_allowed_values(Value::List(evaluated_values), av_evaluator.as_ref())
+      check_allowed_items(evaluated_values, av_evaluator.as_ref())
     } else {
       value_null!("expected list, actual type is '{}' in value '{}'", value.type_of(), value)
     }
